@@ -90,7 +90,7 @@ class RecurseNode(ConfigList):
 
         enode = ctx._ecfg
         for p in path:
-            enode = getattr(enode, p)
+            enode = enode.get_or_set(p)
 
         assert isinstance(enode, EvalContext.PartialChild)
         enode.clear()
